@@ -135,28 +135,34 @@ theorem alive_in_close_phase_witness :
     alive s2 = false ∧ s2.closingLocal = [3, 2] ∧ s2.c.get 2 = some ⟨false, true, true, false, false⟩ := by decide
 
 /-- `alive_iff_full_statement` is FALSE of the code at API boundaries of `main`, for the `pending_inv` reason:
-    `uv_run` makes at most 8 extra passes over the pending queue after polling (core.c `uv__run_pending` loop in
-    `uv_run`).  Two back-to-back `uv_udp_send`s, and the send callbacks of requests 1..8 each issue one more
-    `uv_udp_send`: every pass sends the queued datagram (re-feeding the watcher) and completes it; after the 8th
-    pass the watcher is still in the pending queue, nothing is owed, the handle has been stopped, nothing is
-    closing — and `uv_run(UV_RUN_NOWAIT)` returns with `uv_loop_alive()` true. -/
+    `uv_run` makes at most 8 extra passes over the pending queue after polling (`uv__run_pending` loop in
+    `uv_run`, core.c).  Two back-to-back `uv_udp_send`s, and the send callbacks of requests 1..9 each issue one more
+    `uv_udp_send`: the pending phase, the poll phase (socket writable) and every extra pass send the queued
+    datagram (re-feeding the watcher) and complete it; after the 8th extra pass the watcher is still in the pending
+    queue, nothing is owed, the handle has been stopped, nothing is closing — and `uv_run(UV_RUN_NOWAIT)` returns 1
+    with `uv_loop_alive()` true.  Replayed on the real library (harness/sim_loop.c, lines
+    `on r1..r9 0 udp_send h0; op init udp; op udp_send h0 (x2); op run NOWAIT`): `ret 1`,
+    `obs alive=1 ah=0 ar=0 pq=h0 h0=-R-`, identical to the model's trace. -/
 def chainScript : Script := fun key _ _ =>
   match key with
-  | .r r => if 1 ≤ r ∧ r ≤ 8 then [Op.udpSend 2] else []
+  | .r r => if 1 ≤ r ∧ r ≤ 9 then [Op.udpSend 2] else []
   | _ => []
 
 def chainProg : List MainOp :=
   [MainOp.op (.init .udp), MainOp.op (.udpSend 2), MainOp.op (.udpSend 2), MainOp.run .nowait]
 
+/-- the poller reports the udp socket writable (POLLOUT is armed by the second send), as the real one does -/
+def chainOracle : List PollRes := [{ clock := 1000, batch := [(.h 2, 4)] }]
+
 theorem alive_iff_full_witness :
-    let s := runMain chainScript 5 (initLoop 1000 false [{ clock := 1000 }]) chainProg
-    alive s = true ∧ s.pending = [2] ∧ s.ar = 0 ∧ s.reqs = [] ∧ s.closing = [] ∧ s.nextReq = 10 ∧ s.halted = false ∧
+    let s := runMain chainScript 5 (initLoop 1000 false chainOracle) chainProg
+    alive s = true ∧ s.pending = [2] ∧ s.ar = 0 ∧ s.reqs = [] ∧ s.closing = [] ∧ s.nextReq = 11 ∧ s.halted = false ∧
       s.c.fl.map (fun e => (e.1, e.2.active, e.2.closing)) = [(0, false, false), (1, true, false), (2, false, false)] ∧
       s.c.get 1 = some ⟨true, false, false, false, true⟩ := by decide +kernel
 
 theorem alive_iff_full_false : ¬ alive_iff_full_statement := by
   intro h
-  have := h chainScript 5 1000 false [{ clock := 1000 }] chainProg
+  have := h chainScript 5 1000 false chainOracle chainProg
   revert this
   decide +kernel
 
